@@ -124,7 +124,7 @@ static void altcost(const cp_t* c, int alt, int* dp, int* dd, int* de) {
 }
 
 // ---- failure bookkeeping --------------------------------------------------
-typedef struct { int verdict; char msg[300]; long count; int len; uint8_t* choices; int confirmed; int p, d, e; uint64_t obs; } failure_t;
+typedef struct { int verdict; char msg[300]; long count; int len; uint8_t* choices; int confirmed; int p, d, e; uint64_t obs; uint8_t* sites; } failure_t;
 static failure_t fails[64];
 static int nfails;
 static long total_failing;
@@ -164,6 +164,8 @@ static failure_t* record_failure(trace_t* tr, int p, int d, int e) {
   for (uint32_t k = 0; k < tr->ncp; k++) f->choices[k] = tr->cp[k].chosen;
   f->p = p; f->d = d; f->e = e;
   f->obs = tr->obs;
+  f->sites = malloc(NSITES);
+  memcpy(f->sites, SH->site_shared, NSITES);
   return f;
 }
 
@@ -308,7 +310,7 @@ static void write_replay(const char* path, failure_t* f, int argc, char** argv) 
     if (strncmp(argv[i], "-json=", 6) && strncmp(argv[i], "-out=", 5)) fprintf(o, " %s", argv[i]);
   fprintf(o, "\nsites");
   for (int k = 0; k < NSITES; k++)
-    if (SH->site_shared[k]) fprintf(o, " %d", k);
+    if (f->sites[k]) fprintf(o, " %d", k);
   fprintf(o, "\nchoices ");
   for (int k = 0; k < f->len; k++) fputc("0123456789abcdef"[f->choices[k] & 15], o);
   fprintf(o, "\n");
@@ -317,6 +319,7 @@ static void write_replay(const char* path, failure_t* f, int argc, char** argv) 
 
 static int confirm(failure_t* f) {
   // replay twice in fresh children: same verdict, same message, same observation hash
+  memcpy(SH->site_shared, f->sites, NSITES);
   for (int r = 0; r < 2; r++) {
     wslot_t* s = &slots[0];
     s->len = f->len;
@@ -472,8 +475,8 @@ int main(int argc, char** argv) {
     fprintf(o, ",\"args\":[");
     for (int i = 1; i < argc; i++) { if (i > 1) fputc(',', o); json_str(o, argv[i]); }
     fprintf(o, "],\"P\":%d,\"D\":%d,\"E\":%d,\"completed_P\":%d,\"complete\":%s,\"closed\":%s,\"passes\":%d,", targetP, D, E, completedP, complete ? "true" : "false", closed ? "true" : "false", passes);
-    fprintf(o, "\"execs\":%ld,\"states\":%ld,\"transitions\":%lu,\"nontrivial\":%ld,\"last_pass_execs\":%ld,\"last_pass_ok\":%ld,\"inconclusive\":%ld,\"outcomes\":%d,\"max_cp\":%ld,\"sites\":%d,\"threads\":%u,",
-            tot_execs, tot_states, (unsigned long)tot_steps, tot_nontrivial, last->execs, last->ok, last->inconclusive, last->nobs, last->maxcp, count_sites(), slots[0].tr.maxthreads);
+    fprintf(o, "\"execs\":%ld,\"states\":%ld,\"transitions\":%lu,\"nontrivial\":%ld,\"last_pass_nontrivial\":%ld,\"last_pass_execs\":%ld,\"last_pass_ok\":%ld,\"inconclusive\":%ld,\"outcomes\":%d,\"max_cp\":%ld,\"sites\":%d,\"threads\":%u,",
+            tot_execs, tot_states, (unsigned long)tot_steps, tot_nontrivial, last->nontrivial, last->execs, last->ok, last->inconclusive, last->nobs, last->maxcp, count_sites(), slots[0].tr.maxthreads);
     fprintf(o, "\"engine_error\":%s,\"unconfirmed\":%d,\"wall_s\":%.2f,\"samples\":[", engine_error ? "true" : "false", unconfirmed, wall);
     for (int i = 0; i < last->nsamples; i++) { if (i) fputc(',', o); json_str(o, last->samples[i]); }
     fprintf(o, "],\"failures\":[");
